@@ -9,6 +9,7 @@
 //   EP <size> <off> <filehex|-> <script|->   ErsatzPRead
 //   EW <datahex|-> <off> <filehex|-> <script|->  ErsatzPWrite
 //   BS <len,len,...|-> <script|->            FileStream (BufferedStream<FileWriter>): writes of the given lengths, destructor flush
+//   TB <len,len,...|-> <script|->            ThreadedBufferedStream<FileWriter>: writes of the given lengths, destructor (spill, poison, join)
 //   RC <amount> <srchex|-> <script|->        ReadCompressed(fd).ReadOrEOF(amount) on uncompressed data
 // answer:  OK <resulthex|-> trace=<req:ret,...> sink=<hex|->     or   FAIL <kind> trace=... sink=...
 #ifndef _GNU_SOURCE
@@ -17,6 +18,7 @@
 #include "hx_common.hh"
 #include "util/file.hh"
 #include "util/file_stream.hh"
+#include "util/threaded_buffered_stream.hh"
 #include "util/compress.hh"
 #include "util/exception.hh"
 
@@ -147,6 +149,29 @@ std::string RunCase(const std::vector<std::string> &t) {
       trace = Trace(fd);
       Disarm();
       result = Slurp(fd);
+    } else if (op == "TB" && t.size() == 3) {
+      fd = MemFile("");
+      sink_used = true;
+      std::vector<size_t> lens;
+      if (t[1] != "-") {
+        std::istringstream is(t[1]);
+        std::string x;
+        while (std::getline(is, x, ',')) lens.push_back(strtoul(x.c_str(), NULL, 10));
+      }
+      int keep = dup(fd);
+      Arm(t[2], fd);
+      {
+        util::ThreadedBufferedStream<util::FileWriter> out(fd);
+        for (size_t i = 0; i < lens.size(); ++i) {
+          std::string d = Data(lens[i], i);
+          out.write(d.data(), d.size());
+        }
+      }
+      trace = Trace(fd);
+      Disarm();
+      sink = Slurp(keep);
+      close(keep);
+      fd = -1;
     } else if (op == "BS" && t.size() == 3) {
       fd = MemFile("");
       sink_used = true;
